@@ -26,8 +26,12 @@
 
 mod child;
 mod fam;
+mod guard;
 mod payload;
 mod spec;
+
+#[global_allocator]
+static ALLOC: guard::GuardAlloc = guard::GuardAlloc;
 
 use fam::Canon;
 use serde_json::json;
@@ -43,14 +47,32 @@ use vcore::run::{Finish, Run, Tier, par_range};
 /// (every alias replays its whole target): counted, no verdict.
 const MAX_EXPANDED_EVENTS: u64 = 100_000;
 
-/// Serializer option variants. `compact_list_indent` is deliberately absent: with it
-/// an empty sequence that follows a block sequence is emitted as `key:\n[]` at the
-/// key's own indentation, which no parser accepts — with or without anchors, so it
-/// is a layout defect (C13/C20), not a C14 observation.
-pub const N_SER_OPTS: usize = 5;
+/// Options for reading back: no budget, no per-anchor or depth limits, but a ceiling on the total
+/// number of replayed events. The raw-parser model bounds the replay volume of every case that is
+/// read back by `MAX_EXPANDED_EVENTS`, so the ceiling (4x that) is never reached by a correct
+/// expansion; it turns a runaway replay into an `Err` (reported as a violation) instead of letting
+/// the process run out of memory.
+#[allow(deprecated)]
+pub fn read_opts() -> serde_saphyr::Options {
+    let mut o = vcore::errs::unlimited_options();
+    o.alias_limits.max_total_replayed_events = (4 * MAX_EXPANDED_EVENTS) as usize;
+    o
+}
+
+/// Serializer option vectors (index = `ser_opts` in replay files; 0..=4 keep their old meaning).
+pub const N_SER_OPTS: usize = 13;
 
 fn anchor_name(i: usize) -> String {
     format!("N{i}x")
+}
+
+fn anchor_name_2(i: usize) -> String {
+    format!("réf-{i}.{}", i * 7 % 5)
+}
+
+/// Does this option vector use the built-in anchor names `a<k>`?
+pub fn default_anchor_names(v: usize) -> bool {
+    !matches!(v, 3 | 9 | 12)
 }
 
 #[allow(deprecated)]
@@ -61,6 +83,24 @@ pub fn ser_opts(v: usize) -> serde_saphyr::SerializerOptions {
         2 => o.quote_all = true,
         3 => o.anchor_generator = Some(anchor_name),
         4 => o.tagged_enums = true,
+        5 => o.compact_list_indent = true,
+        6 => o.yaml_12 = true,
+        7 => o.indent_step = 1,
+        8 => o.indent_step = 7,
+        9 => o.anchor_generator = Some(anchor_name_2),
+        10 => o.prefer_block_scalars = false,
+        11 => {
+            o.indent_step = 3;
+            o.compact_list_indent = true;
+            o.quote_all = true;
+            o.yaml_12 = true;
+        }
+        12 => {
+            o.indent_step = 4;
+            o.compact_list_indent = true;
+            o.tagged_enums = true;
+            o.anchor_generator = Some(anchor_name);
+        }
         _ => {}
     }
     o
@@ -280,6 +320,15 @@ pub fn report(run: &Run, signature: &str, case: serde_json::Value, detail: impl 
     }
 }
 
+/// Number of documents the raw parser sees (None on a scan error).
+fn analyse_stream_docs(text: &str) -> Option<usize> {
+    let (evs, err) = raw_events(text);
+    if err.is_some() {
+        return None;
+    }
+    Some(evs.iter().filter(|e| matches!(e.kind, RawKind::DocStart(_))).count())
+}
+
 /// Pump counters from the hook trace (evidence only).
 #[derive(Default)]
 struct Pumps {
@@ -353,6 +402,7 @@ macro_rules! family_check {
             let spec = cx.spec;
             let so = cx.so;
             let case = || json!({"suite": "graph", "family": $label, "ser_opts": so, "spec": spec});
+            let _in_case = guard::InCase::enter(spec, $label, so);
             if !spec.valid($rec) {
                 run.inconclusive("generator: spec not valid for this family");
                 return;
@@ -493,7 +543,7 @@ macro_rules! family_check {
                         _ => {}
                     }
                 },
-                || catch(|| serde_saphyr::from_str_with_options::<fam::$m::Doc>(&text, vcore::errs::unlimited_options())),
+                || catch(|| serde_saphyr::from_str_with_options::<fam::$m::Doc>(&text, read_opts())),
             );
             cnt("hook/pumps_parser", pumps.parser.get());
             cnt("hook/pumps_replay", pumps.replay.get());
@@ -582,7 +632,7 @@ macro_rules! family_check {
                         return;
                     }
                 };
-                match catch(|| serde_saphyr::from_str_with_options::<fam::plain::Doc>(&text, vcore::errs::unlimited_options())) {
+                match catch(|| serde_saphyr::from_str_with_options::<fam::plain::Doc>(&text, read_opts())) {
                     Err(p) => {
                         report(run, &format!("C14:panic:{}", panic_site(&p)), case(), p);
                         return;
@@ -620,7 +670,7 @@ macro_rules! family_check {
 
             // ---- the same document without the anchors nobody refers to (what a person would write):
             // same graph. Default anchor names only (the k-th definition in the text is `&a<k>`).
-            if unspecified.is_empty() && so != 3 && !ev.unreferenced.is_empty() {
+            if unspecified.is_empty() && default_anchor_names(so) && !ev.unreferenced.is_empty() {
                 // the known way this goes wrong: a wrapper node without an anchor inside a wrapper node
                 // that keeps its anchor is given the enclosing node's anchor id
                 let nested_unanchored = ev
@@ -631,7 +681,7 @@ macro_rules! family_check {
                     None => run.inconclusive("generator: removing unreferenced anchors did not give the intended event stream"),
                     Some(stripped) => {
                         run.eval();
-                        match catch(|| serde_saphyr::from_str_with_options::<fam::$m::Doc>(&stripped, vcore::errs::unlimited_options())) {
+                        match catch(|| serde_saphyr::from_str_with_options::<fam::$m::Doc>(&stripped, read_opts())) {
                             Err(p) => {
                                 report(run, &format!("C14:panic:{}", panic_site(&p)), case(), p);
                                 return;
@@ -681,6 +731,99 @@ macro_rules! family_check {
                                     cnt("stripped/anchors_removed", ev.unreferenced.len() as u64);
                                 }
                             },
+                        }
+                    }
+                }
+            }
+
+            // ---- the other entry points must rebuild the same graph: reader, slice, multi-document
+            // (one of them per case, chosen by a hash of the canonical form)
+            if verdict_ok && unspecified.is_empty() {
+                let which = vcore::rng::fnv(c0.out.as_bytes()) % 4;
+                let opts = read_opts;
+                let (name, docs): (&'static str, Result<Result<Vec<fam::$m::Doc>, serde_saphyr::Error>, String>) = match which {
+                    0 => ("from_reader", catch(|| serde_saphyr::from_reader_with_options::<_, fam::$m::Doc>(text.as_bytes(), opts()).map(|d| vec![d]))),
+                    1 => ("from_slice", catch(|| serde_saphyr::from_slice_with_options::<fam::$m::Doc>(text.as_bytes(), opts()).map(|d| vec![d]))),
+                    2 => ("from_multiple", catch(|| serde_saphyr::from_multiple_with_options::<fam::$m::Doc>(&text, opts()))),
+                    _ => {
+                        // the same document twice in one stream: same graph twice, nothing shared between them
+                        let two = if text.starts_with('%') { format!("{text}...\n{text}") } else { format!("{text}---\n{text}") };
+                        match analyse_stream_docs(&two) {
+                            Some(2) => ("from_multiple_x2", catch(|| serde_saphyr::from_multiple_with_options::<fam::$m::Doc>(&two, opts()))),
+                            _ => {
+                                run.inconclusive("generator: doubled document is not a two-document stream for the raw parser");
+                                ("skip", Ok(Ok(Vec::new())))
+                            }
+                        }
+                    }
+                };
+                if name != "skip" {
+                    run.eval();
+                    let want = if name == "from_multiple_x2" { 2 } else { 1 };
+                    match docs {
+                        Err(p) => {
+                            report(run, &format!("C14:panic:{}", panic_site(&p)), case(), p);
+                            return;
+                        }
+                        Ok(Err(e)) => {
+                            report(
+                                run,
+                                &format!("C14:entry-point:{name}:err:{}:{}", $label, vcore::errs::kind(&e)),
+                                case(),
+                                format!("{name} fails on the text from_str accepts: {e}\ntext:\n{text}"),
+                            );
+                            return;
+                        }
+                        Ok(Ok(ds)) => {
+                            if ds.len() != want {
+                                report(
+                                    run,
+                                    &format!("C14:entry-point:{name}:document-count:{}", $label),
+                                    case(),
+                                    format!("{name} returned {} documents, expected {want}\ntext:\n{text}", ds.len()),
+                                );
+                                return;
+                            }
+                            let mut seen: std::collections::HashSet<usize> = std::collections::HashSet::new();
+                            for d in &ds {
+                                let cd = match catch(|| fam::$m::canon(d)) {
+                                    Ok(c) => c,
+                                    Err(p) => {
+                                        report(run, &format!("C14:readback-graph-unwalkable:{}", $label), case(), format!("{name}: {p}"));
+                                        return;
+                                    }
+                                };
+                                if cd.out != c0.out {
+                                    let what = if cd.shape != c0.shape { "tree-shape" } else { "pointer-identity" };
+                                    report(
+                                        run,
+                                        &format!("C14:entry-point:{name}:mismatch:{}:{what}", $label),
+                                        case(),
+                                        format!("{name} rebuilds a different graph: {}\ntext:\n{text}", first_diff(&c0.out, &cd.out)),
+                                    );
+                                    return;
+                                }
+                                let addrs = cd.addresses();
+                                if addrs.iter().any(|a| seen.contains(a)) {
+                                    report(
+                                        run,
+                                        &format!("C14:entry-point:{name}:allocation-shared-between-documents:{}", $label),
+                                        case(),
+                                        format!("two documents of one stream point to the same allocation\ntext:\n{text}"),
+                                    );
+                                    return;
+                                }
+                                seen.extend(addrs);
+                            }
+                            cnt(
+                                match name {
+                                    "from_reader" => "entry/from_reader_ok",
+                                    "from_slice" => "entry/from_slice_ok",
+                                    "from_multiple" => "entry/from_multiple_ok",
+                                    _ => "entry/from_multiple_two_documents_ok",
+                                },
+                                1,
+                            );
                         }
                     }
                 }
@@ -740,6 +883,7 @@ fn main() {
         child::child_main();
     }
     let run = Run::from_args("C14");
+    guard::configure(run.seed, run.tier == Tier::Thorough);
     if let Some(rep) = run.is_replay() {
         let case = rep["case"].clone();
         match case["suite"].as_str() {
@@ -768,8 +912,8 @@ fn main() {
         run.finish(Finish::new("replay"));
     }
     let tier = run.tier;
-    // debugging aid: VERIF_C14_PARTS=payload,exh,random restricts the run to some parts
-    let parts = std::env::var("VERIF_C14_PARTS").unwrap_or_else(|_| "payload,exh,random".into());
+    // debugging aid: VERIF_C14_PARTS=payload,exh,nest,random restricts the run to some parts
+    let parts = std::env::var("VERIF_C14_PARTS").unwrap_or_else(|_| "payload,exh,nest,random".into());
     let part = |p: &str| parts.split(',').any(|x| x == p);
 
     // ---- payload kinds x contexts (fixed finite list)
@@ -777,37 +921,128 @@ fn main() {
         payload::run_suite(&run, None);
     }
 
-    // ---- exhaustive small graphs
-    // both tiers: n <= 3 with at most one weak edge and n = 4 with strong edges only over the 7-way alphabet;
-    // thorough adds n = 4 with at most one weak edge over the 4-way alphabet
-    let mut exh: Vec<(usize, bool, usize)> =
-        vec![(1, true, spec::PAIR_OPTIONS), (2, true, spec::PAIR_OPTIONS), (3, true, spec::PAIR_OPTIONS), (4, false, spec::PAIR_OPTIONS)];
-    if tier == Tier::Thorough {
-        exh.push((4, true, spec::PAIR_OPTIONS_SMALL));
+    // ---- exhaustive small graphs: (nodes, weak edges, link alphabet, root orders, families)
+    // families: None = each graph in all four families; Some(()) = family assigned round-robin by index
+    struct Exh {
+        n: usize,
+        weak_edges: usize,
+        alphabet: usize,
+        root_orders: usize,
+        round_robin: bool,
+        so: usize,
     }
-    for &(n, with_weak, po) in &exh {
+    let e = |n, weak_edges, alphabet, root_orders, round_robin, so| Exh { n, weak_edges, alphabet, root_orders, round_robin, so };
+    let full = spec::PAIR_OPTIONS;
+    let mut exh: Vec<Exh> = vec![
+        e(1, 1, full, 2, false, 0),
+        e(2, 1, full, 2, false, 0),
+        e(3, 1, full, 2, false, 0),
+        e(4, 0, full, tier.pick(1, 2), false, 0),
+        e(1, 2, full, 2, false, 0),
+        e(2, 2, full, 2, false, 0),
+    ];
+    if tier == Tier::Thorough {
+        exh.push(e(4, 1, spec::PAIR_OPTIONS_SMALL, 2, false, 0));
+        exh.push(e(3, 2, full, 2, false, 0));
+        exh.push(e(4, 1, full, 1, true, 0));
+    }
+    // serializer option vectors crossed with the small graphs
+    for so in 1..N_SER_OPTS {
+        exh.push(e(2, 1, full, 2, false, so));
+        if tier == Tier::Thorough {
+            exh.push(e(3, 1, full, 2, false, so));
+        }
+    }
+    let mut scope_exh: Vec<String> = Vec::new();
+    for x in &exh {
         if !part("exh") {
             break;
         }
-        let size = spec::exhaustive_size(n, with_weak, po);
-        for fam in FAMILIES {
-            let rec = is_rec(fam);
-            par_range(size, |idx| match spec::exhaustive_spec(n, with_weak, po, rec, idx) {
-                None => {}
-                Some(s) => {
-                    check_case(&run, fam, &s, 0);
-                    if idx % 50_021 == 7 {
-                        run.sample(|| json!({"family": fam, "spec": s}));
+        let size = spec::exhaustive_size(x.n, x.weak_edges, x.alphabet, x.root_orders);
+        let fams: &[&str] = if x.round_robin { &["round-robin"] } else { FAMILIES };
+        for f in fams {
+            par_range(size, |idx| {
+                let fam = if x.round_robin { FAMILIES[idx % 4] } else { *f };
+                match spec::exhaustive_spec(x.n, x.weak_edges, x.alphabet, x.root_orders, is_rec(fam), idx) {
+                    None => {}
+                    Some(s) => {
+                        check_case(&run, fam, &s, x.so);
+                        if idx % 50_021 == 7 {
+                            run.sample(|| json!({"family": fam, "ser_opts": x.so, "spec": s}));
+                        }
                     }
                 }
             });
         }
-        run.count(&format!("exhaustive/index_space_n{n}_weak{}_alphabet{po}", with_weak as u8), (size * FAMILIES.len()) as u64);
+        if x.so == 0 {
+            run.count(
+                &format!("exhaustive/index_space_n{}_weak{}_alphabet{}_roots{}{}", x.n, x.weak_edges, x.alphabet, x.root_orders, if x.round_robin { "_family-round-robin" } else { "" }),
+                (size * fams.len()) as u64,
+            );
+            scope_exh.push(format!(
+                "n={} with {} weak edge(s), {}-way links, {} root order(s), {}",
+                x.n,
+                if x.weak_edges == 0 { "no".to_string() } else { format!("<= {}", x.weak_edges) },
+                x.alphabet,
+                x.root_orders,
+                if x.round_robin { "family = index mod 4" } else { "all 4 families" }
+            ));
+        } else {
+            run.count("exhaustive/index_space_option_vectors", (size * fams.len()) as u64);
+        }
+    }
+
+    // ---- shared nodes nested inside shared nodes (depth 3 and 4), referenced again while the outer
+    // definitions are open and after they are closed, through sequences, maps and nested structs
+    struct Nest {
+        depth: usize,
+        slots: usize,
+        round_robin: bool,
+        so: usize,
+    }
+    let mut nests: Vec<Nest> = Vec::new();
+    nests.push(Nest { depth: 3, slots: tier.pick(3, 6), round_robin: false, so: 0 });
+    if tier == Tier::Thorough {
+        nests.push(Nest { depth: 4, slots: 2, round_robin: true, so: 0 });
+    }
+    for so in 1..N_SER_OPTS {
+        nests.push(Nest { depth: 3, slots: tier.pick(1, 2), round_robin: false, so });
+    }
+    let mut scope_nest: Vec<String> = Vec::new();
+    for x in &nests {
+        if !part("nest") {
+            break;
+        }
+        let size = spec::nest_size(x.depth, x.slots);
+        let fams: &[&str] = if x.round_robin { &["round-robin"] } else { FAMILIES };
+        for f in fams {
+            par_range(size, |idx| {
+                let fam = if x.round_robin { FAMILIES[idx % 4] } else { *f };
+                if let Some(s) = spec::nest_spec(x.depth, x.slots, idx) {
+                    cnt("nest/cases", 1);
+                    check_case(&run, fam, &s, x.so);
+                    if idx % 20_011 == 3 {
+                        run.sample(|| json!({"family": fam, "ser_opts": x.so, "spec": s}));
+                    }
+                }
+            });
+        }
+        if x.so == 0 {
+            run.count(&format!("nest/index_space_depth{}_slots{}", x.depth, x.slots), (size * fams.len()) as u64);
+            scope_nest.push(format!(
+                "depth {} with {} link slot kind(s), {}",
+                x.depth,
+                x.slots,
+                if x.round_robin { "family = index mod 4" } else { "all 4 families" }
+            ));
+        } else {
+            run.count("nest/index_space_option_vectors", (size * fams.len()) as u64);
+        }
     }
 
     // ---- seeded random graphs, sharing probability swept 0..1
     let n_random = if part("random") {
-        std::env::var("VERIF_C14_RANDOM_N").ok().and_then(|v| v.parse().ok()).unwrap_or(tier.pick(80_000, 800_000))
+        std::env::var("VERIF_C14_RANDOM_N").ok().and_then(|v| v.parse().ok()).unwrap_or(tier.pick(80_000, 500_000))
     } else {
         0
     };
@@ -816,8 +1051,16 @@ fn main() {
         let fam = FAMILIES[i % 4];
         let rec = is_rec(fam);
         let share_pct = ((i / 4) % 11) * 10;
+        let chain = rng.chance(1, 4);
         let p = GenParams {
-            n: if rng.chance(1, 5) { rng.range(1, 6) } else { rng.range(2, 40) },
+            chain,
+            n: if chain {
+                rng.range(3, 12)
+            } else if rng.chance(1, 5) {
+                rng.range(1, 6)
+            } else {
+                rng.range(2, 40)
+            },
             share_pct,
             rec,
             weak_pct: *rng.pick(&[0usize, 10, 30, 60, 100]),
@@ -857,19 +1100,34 @@ fn main() {
         run.count(&format!("signature_hits/{sig}"), *n);
     }
     let scope = format!(
-        "for each family in {{rc, arc, rcrec, arcrec}}: (a) every graph on n <= 3 nodes in which each ordered pair i<j is linked in one of 7 ways \
-         (none | kids | one | named map | inner.list | choice::Ref | kids+named), parentless nodes listed in Doc.roots after or before node 0, \
-         with at most one weak edge (source node, slot wfirst|weak|up where up is the Option<weak> parent pointer, target any buildable node, itself, or — not for up — dangling); (b) the same for n = 4 \
-         without weak edges{}; combinations that use a single-value slot twice are skipped. Plus the fixed payload-kind x context list (payload.rs).",
-        if tier == Tier::Thorough { "; (c) n = 4 with at most one weak edge over the 4-way alphabet (none | kids | one | named map)" } else { "" },
+        "(a) small graphs: every graph on n nodes in which each ordered pair i<j is linked in one of the ways of the link alphabet \
+         (7-way: none | kids | one | named map | inner.list | choice::Ref | kids+named; 4-way: the first four), parentless nodes listed in Doc.roots \
+         after (and, with 2 root orders, also before) node 0, plus the stated number of weak edges, each = (source node, slot wfirst | weak | up \
+         where up is the Option<weak> parent pointer, target any buildable node, itself, or — not for up — dangling); index combinations that use a \
+         single-value slot twice or repeat a weak edge are skipped. Enumerated: {}. (b) the same for n=2 with <= 1 weak edge{} under each of the {} \
+         other serializer option vectors. (c) nested sharing (spec::nest_spec): a chain of `depth` nested nodes, each link through one of the first k \
+         of (kids, named map, inner.list, one, inner.a, choice::Ref), a leaf below the innermost node and a container X written after the chain; every \
+         subset of: X refers to the outermost node, Doc.roots lists it again, and for each inner node: each enclosing chain node refers to it again, X \
+         refers to it, the outermost node holds a weak reference to it (depth >= 2), Doc.late holds a weak reference to it. Enumerated: {}; and depth 3 \
+         with {} link slot kind(s) under each other option vector. (d) the fixed payload-kind x context list (payload.rs).",
+        scope_exh.join("; "),
+        if tier == Tier::Thorough { " and n=3 with <= 1 weak edge" } else { "" },
+        N_SER_OPTS - 1,
+        scope_nest.join("; "),
+        tier.pick(1, 2),
     );
     let fin = Finish::new(
-        "a case is non-trivial when the canonical walk of the original graph found >= 1 allocation referenced >= 2 times, or >= 1 weak edge \
-         (live or dangling), or a cycle back edge, and the case got a verdict; distinct by hash(spec, family, serializer option variant)",
+        "exhaustive small graphs and nested-sharing chains (see exhaustive_scope) + seeded random graphs (<= 40 nodes, sharing probability swept \
+         0..100 %, a quarter of them pure chains of depth 3..12, 13 serializer option vectors) + payload kinds; every case is serialised, checked on \
+         the raw event stream, read back through from_str, through the text without unreferenced anchors, through the plain mirror type and through \
+         one of from_reader / from_slice / from_multiple / from_multiple on the document written twice. A case is non-trivial when the canonical walk \
+         of the original graph found >= 1 allocation referenced >= 2 times, or >= 1 weak edge (live or dangling), or a cycle back edge, and the case \
+         got a verdict; distinct by hash(spec, family, serializer option vector)",
     )
     .exhaustive(scope)
     .assume("the raw saphyr-parser event stream is the ground truth for anchors/aliases in the emitted text")
-    .assume("budget and alias limits switched off for reading back; graphs whose alias-free expansion exceeds 100k events are skipped")
+    .assume("a single allocation request >= 1 GiB while a case is being checked is reported as C14:readback-runaway-allocation (the process exits at once with the replay file written)")
+    .assume("reading back: budget and alias limits off except max_total_replayed_events = 400k; graphs whose alias-free expansion (raw-parser model) exceeds 100k events are skipped, so the ceiling is unreachable for a correct expansion")
     .assume("a child process that has not exited, sleeps (state S) and shows the same utime+stime in 3 samples >= 1 s apart while producing no output is blocked for ever (deadlock); one that still burns CPU is inconclusive")
     .assume("unspecified (Err or correct topology both accepted): weak serialised before its strong target, cycles through the non-recursive weak wrappers, dangling RcRecursion/ArcRecursion")
     .min_nontrivial(if tier == Tier::Quick { 5_000 } else { 50_000 });
